@@ -49,6 +49,21 @@ CLAIMED['C20'] = {
     'design_ref': 'DESIGN.md 4 (C20)',
 }
 
+CLAIMED['C01'] = {
+    'text': 'Seeded deterministic simulation of operation histories on a pool of up to 6 live dictables that share column list objects: a seeded '
+            'scheduler draws 5-40 public operations (4 constructors, assignment/deletion/update by item and attribute, row/column/tuple access, '
+            'slices, masks, integer lists, projection, derived columns, rename/relabel, do, minus, copy, +, +=, concat, sum of rows, inc/exc by value '
+            'and by callable) and their operands; every live table is compared with a list-of-records model after every step, so an operation '
+            'that edits another table is blamed on the step that did it. Faults: ill-fitting constructions/assignments/updates (must be rejected, '
+            'table unchanged), user callables that raise at their k-th invocation (no table may change), and the worker\'s PYTHONHASHSEED class. '
+            'Evidence over sampled histories, not proof.',
+    'note': 'Cells: None, ints, floats incl. NaN, strings incl. empty, datetimes; columns a..f. Column order is not compared (not in the statement). '
+            'd+0, d+None and concat of one table may return the operand itself; all other table-returning operations must return a new object. '
+            'Outside the oracle: length-1 masks, rows+headers with extra keywords, renaming onto an existing column, if_none, mutating a list obtained via d[c].',
+    'technique': 'deterministic simulation: seeded operation histories over a pool of aliasing tables with rejection and callback-failure injection, list-of-records reference model checked after every step',
+    'design_ref': 'DESIGN.md 4 (C01)',
+}
+
 NOT_APPLICABLE = {
     'C02': 'join/xor: result and termination are a function of the two argument tables of one call; no schedule, clock, shared state or fault to simulate.',
     'C03': 'df_sync/df_reindex/presync alignment: pure function of the argument collection and policy; presync wrappers hold no mutable state.',
